@@ -6,7 +6,7 @@ import argparse, json, os, re, sys
 VERIF = os.path.dirname(os.path.dirname(os.path.abspath(__file__)))
 ap = argparse.ArgumentParser()
 ap.add_argument("log")
-ap.add_argument("--rounds", default="1,2,3,4,5,6,7")
+ap.add_argument("--rounds", default="1,2,3,4,5,6,7,8")
 ap.add_argument("--compact", action="store_true", help="one short row per seed (for DESIGN.md); default: long form with the summary (seeded/INDEX.md)")
 a = ap.parse_args()
 rounds = {int(x) for x in a.rounds.split(",")}
